@@ -22,6 +22,10 @@ assert os.path.realpath(os.path.dirname(htmltools.__file__)) == os.path.realpath
 
 
 # ------------------------------------------------------------------ helper classes
+class _StrResult(str):
+    """a plain str subclass (markupsafe-style result type)"""
+
+
 class ReprObj:
     """Object that is only self-rendering."""
 
@@ -29,7 +33,9 @@ class ReprObj:
         self.s = s
 
     def _repr_html_(self) -> str:
-        return self.s
+        # every third payload (by length) is handed over as an instance of a str SUBCLASS (markupsafe-style strings):
+        # still a `str`, so the contract `-> str` is met and the rendering must be the same
+        return _StrResult(self.s) if len(self.s) % 3 == 1 else self.s
 
     def __eq__(self, other):
         return isinstance(other, ReprObj) and other.s == self.s
